@@ -127,6 +127,7 @@ pub struct NetState {
     pub write_mode: WriteMode,
     pub log: Log,
     pub keep_tx: bool,
+    pub log_wrote: bool,
     dgram_in: VecDeque<Bytes>,
     w_dgram: Vec<Waker>,
     pub dgram_avail: bool,
@@ -174,6 +175,7 @@ impl Net {
             write_mode: WriteMode::All,
             log,
             keep_tx: false,
+            log_wrote: true,
             dgram_in: VecDeque::new(),
             w_dgram: vec![],
             dgram_avail: true,
@@ -360,6 +362,9 @@ impl NetState {
             if let Some(s) = self.streams.get_mut(&sid) {
                 s.tx_buf.extend_from_slice(&bytes);
             }
+        }
+        if v["ev"] == "wrote" && !self.log_wrote {
+            return;
         }
         self.log.push(v);
     }
